@@ -25,10 +25,11 @@ NOISES = [0.1, 0.5, 1.0, 2.0, 7.5]
 
 class C04(Prop):
     id = 'C04'
-    level = 'exploration'      # bounded tier only in this module; becomes 'other' once the deductive tier is attached
+    level = 'other'            # deductive tier: pv/ded/<id>.py (picked up by Prop.deductive); this module is the bounded tier
     technique = ('run-time contract on FactoredInference.fix_measurements/_setup/_marginal_loss/_lipschitz against an independent dense-linear-algebra '
                  'oracle (counting-loop marginalisation matrices, full joint table), central finite differences, dense eigvalsh of the assembled Hessian')
-    explanation = ('Bounded tier (labelled bounded): for seeded random domains (<= 4 attributes, sizes 2..4) and measurement sets with overlapping / nested / '
+    explanation = ('Deductive tier (pv/ded/C04.py): obligations of the contract module "objective" (normal form produced by fix_measurements, '
+                   'grouping loop of _setup, clique selection of _lipschitz) generated from the real AST and discharged by z3. Bounded tier (labelled bounded): for seeded random domains (<= 4 attributes, sizes 2..4) and measurement sets with overlapping / nested / '
                    'cyclic / permuted projections, dense / sparse / LinearOperator / None queries, str / list / tuple projections and unequal noise, the real '
                    'FactoredInference is set up and _marginal_loss is compared with the stated sum over all measurements computed from an explicit joint table; '
                    'the gradient is compared with central finite differences of the independently computed loss along joint-table directions and along '
@@ -46,9 +47,6 @@ class C04(Prop):
     quick_budget_s = 90
     thorough_budget_s = 600
 
-    def deductive(self, tier):
-        return []
-
     # ---------------------------------------------------------------- cases
     def cases(self, tier, seed):
         import numpy as np
@@ -57,7 +55,7 @@ class C04(Prop):
         r2 = dict(REGRESSION, metric='L1', kind='regression-L1')
         r2.pop('expect_lambda_max')
         yield r2
-        n = 800 if tier == 'quick' else 12000
+        n = 2000 if tier == 'quick' else 12000
         for i in range(n):
             k = int(rng.choice([2, 3, 3, 4, 4]))
             names = list(IC.ATTR_NAMES[:k])
